@@ -8,7 +8,7 @@ From Coq Require Import List Bool Arith Ring ZArith.
 Require Import QG.Base.Res QG.Base.State QG.Base.Mat QG.Base.ZI QG.Model.Backends QG.Model.Optimizer QG.Model.Sparse.
 Require Import QG.Proofs.BackendsSpec QG.Proofs.BackendsKron QG.Proofs.BackendsContract QG.Proofs.BackendsEff QG.Proofs.BackendsOnes.
 Require Import QG.Proofs.BackendsEffFull QG.Proofs.BackendsBinary QG.Proofs.OptimizerSem.
-Require QG.Props.C02.
+Require QG.Props.C02 QG.Proofs.SparseApply.
 Import ListNotations.
 
 Section Statements.
@@ -207,7 +207,7 @@ Print Assumptions C01_binary_agrees_hyp.
 (* the premise is literally C02's open statement C02_backend_full (Props/C02.v), with C02's entry reader *)
 Theorem C01_binary_agrees : C02.C02_backend_full ->
   forall R rO rI radd rmul rsub ropp, ring_theory rO rI radd rmul rsub ropp eq ->
-  binary_agrees_stmt R rO rI radd rmul (C02.entry_mat R rO).
+  binary_agrees_stmt R rO rI radd rmul (SparseApply.entry_mat R rO).
 Proof.
   intros Hfull R rO rI radd rmul rsub ropp Rth. apply (C01_binary_agrees_hyp R rO rI radd rmul rsub ropp Rth).
   intros n items psi. exact (Hfull R rO rI radd rmul rsub ropp Rth n items psi).
@@ -217,7 +217,7 @@ Print Assumptions C01_binary_agrees.
 (* ... and C02_bin_spec (Props/C02.v) proves that premise, so the statement holds outright *)
 Theorem C01_binary_agrees_closed :
   forall R rO rI radd rmul rsub ropp, ring_theory rO rI radd rmul rsub ropp eq ->
-  binary_agrees_stmt R rO rI radd rmul (C02.entry_mat R rO).
+  binary_agrees_stmt R rO rI radd rmul (SparseApply.entry_mat R rO).
 Proof. exact (C01_binary_agrees C02.C02_bin_spec). Qed.
 Print Assumptions C01_binary_agrees_closed.
 
@@ -279,6 +279,6 @@ Example C01_example_eff_binary :
   eff_nchunks 4 3 2 = 1%nat /\
   (match eff ZI zi1 ziadd zimul 4 3 2 exLayers exPsi with Ok s => map s (all_bits 4) = spec | _ => False end) /\
   (match bin_statevector ZI zi0 ziadd zimul (mat ZI) (mmul ZI ziadd zimul) (mkron ZI zimul) (mid2 ZI zi0 zi1) (mid4 ZI zi0 zi1)
-           (C02.entry_mat ZI zi0) 4 (items_of_layers ZI exLayers) exPsi with
+           (SparseApply.entry_mat ZI zi0) 4 (items_of_layers ZI exLayers) exPsi with
    | Ok s => map s (all_bits 4) = spec | _ => False end).
 Proof. vm_compute. repeat split; reflexivity. Qed.
